@@ -385,6 +385,28 @@ def dic_incomplete_cause(klass, pic, x, n_dic, dof):
     return "_symmetry_inequivalent_u" if n0 >= dof else f"{klass.__name__}._calc_U"
 
 
+def schmidt_min_norm(klass, pic, x):
+    """smallest norm that _schmidt_orthogonalise divides by for this input (the algorithm of dic.py:516-547 re-run on the
+    eigenvectors of DIC._calc_U); inf when there is nothing to orthogonalise"""
+    from autode.opt.coordinates import DIC
+    try:
+        arr = np.array(DIC._calc_U(pic, x), copy=True)
+    except Exception:  # noqa
+        return float("inf")
+    idxs = [i for i, p in enumerate(pic) if p.is_constrained]
+    m, n = len(idxs), arr.shape[1]
+    us = [np.eye(arr.shape[0])[k] for k in idxs]
+    least = float("inf")
+    for i in range(m, n):
+        v = arr[:, i].copy()
+        for u in us:
+            v = v - (u @ v) / (u @ u) * u
+        nv = float(np.linalg.norm(v))
+        least = min(least, nv)
+        us.append(v / nv if nv > 0 else v)
+    return least
+
+
 def oracle_primitives(spec):
     """rank of B on the internal subspace, U^T U = I, constrained primitives isolated."""
     from autode.opt.coordinates import DIC, DICWithConstraints
@@ -477,6 +499,12 @@ def oracle_primitives(spec):
     n = U.shape[1]
     info.update(n_dic=n, dic=dic, pic=pic, x=x, mol=m)
     err = float(np.abs(U.T @ U - np.eye(n)).max()) if n else 0.0
+    if cons and err > 1e-8 and schmidt_min_norm(klass, pic, x) < 1e-8:
+        # the "no zero vector arises" premise fails: a (numerically) vanishing column was normalised (dic.py:541)
+        fails.append(("DICWithConstraints._calc_U|schmidt-zero-vector",
+                      f"{spec['name']} with distance constraints {cons}: a column orthogonalised against the constraint unit vectors vanishes "
+                      f"(norm < 1e-8, dic.py:541 normalises rounding noise): max |U^T U - I| = {err:.2e}", rep(spec, kind="primitives")))
+        err = 0.0
     if n == 0:
         if dof > 0:
             fails.append((f"{klass.__name__}._calc_U|empty-delocalised-set:{spec['cls']}", f"{spec['name']}: 0 delocalised coordinates for {dof} degrees of freedom",
